@@ -98,11 +98,12 @@ def c08_oracle(lines, out):
 
 class C08(Prop):
     pid = "C08"
-    category = "translation_validation"
-    level_text = ("Model/Gc.v (line-by-line model of gc_node.rs) agrees bit-exactly with the real collector on the complete hidden "
-                  "state after every operation of all bounded scripts; the property's statement is evaluated on the implementation's "
-                  "own state dumps. The exactness theorem is being proved (Proofs/GcExact*.v); until Props/C08.v exists the level is "
-                  "translation validation.")
+    level_text = ("Theorems over Model/Gc.v (line-by-line model of gc_node.rs), unbounded in objects, edges and run length: every "
+                  "contract-respecting run succeeds without panic and keeps counts = handles + incoming edges; a collection frees exactly "
+                  "the objects unreachable from held handles, runs each freed object's destructor exactly once, leaves the buffer empty; "
+                  "nothing is freed outside a collection. Tie: bit-exact comparison of the complete hidden state after every operation on "
+                  "all bounded scripts (stronger than the property's bounded quantifier) plus the property's statement evaluated on the "
+                  "implementation's own state dumps.")
     default_mode = "gc-run"
     design_ref = "DESIGN.md section 6 C08"
     rule = ("gc scripts over synthetic objects on the real GcCtx/GcNode: (a) breadth-first enumeration of ALL "
